@@ -132,10 +132,17 @@ class SlotRef:
     def __init__(self, slot: "SlotNode", context: Context):
         self._slot = slot
         self._context = context
+        # Remember which component the slot belongs to. By the time the default content is rendered
+        # (inside the fill), the context may point to the parent component instead (see the "django"
+        # context behavior in `SlotNode.render()`).
+        self._component_vars = {
+            key: context[key] for key in (_COMPONENT_CONTEXT_KEY, "component_vars") if key in context
+        }
 
     # Render the slot when the template coerces SlotRef to string
     def __str__(self) -> str:
-        return mark_safe(self._slot.nodelist.render(self._context))
+        with self._context.update(self._component_vars):
+            return mark_safe(self._slot.nodelist.render(self._context))
 
 
 class SlotIsFilled(dict):
